@@ -72,6 +72,8 @@ POOLS = {
     "make_private": [["a"], ["_a"], [""], ["__a"], ["A_b"]],
     "coerce_response_name": [["$resp"], ["$resp.name"], ["x.$resp"], ["$resp$resp"], ["resp"], [""]],
     "address_resolve": [[pk, sel] for pk in ([], ["acme"], ["acme", "lib", "v1"]) for sel in ("Book", "a.Book", ".Book", "", ".", "Outer.Inner", "Book.")],
+    "metadata_doc": [[" lead \n", " trail", [" d1\n", " d2\n"]], ["", " trail \n\n", [" d"]], ["", "", [" d1\n", "", " d3 "]], ["", "", []], ["   ", "t", ["d"]],
+                     ["", "  ", ["d"]], [" a\n b\n", "", []], ["", "", [""]], ["x", "y", ["z"]]],
 }
 GENS = {
     "to_valid_filename": lambda r: [rand_str(r, 10, ws=False)],
@@ -91,6 +93,7 @@ GENS = {
     "make_private": lambda r: [rand_str(r, 5, ws=False)],
     "coerce_response_name": lambda r: ["".join(r.pick(["$resp", ".", "a", "$", "resp", "_"]) for _ in range(r.randint(0, 5)))],
     "address_resolve": lambda r: [[r.pick(["acme", "lib", "v1", "a", "x_y"]) for _ in range(r.randint(0, 3))], rand_str(r, 6, ws=False)],
+    "metadata_doc": lambda r: [r.pick(["", "", rand_str(r, 8)]), r.pick(["", rand_str(r, 8)]), [rand_str(r, 6) for _ in range(r.randint(0, 3))]],
 }
 
 
@@ -112,6 +115,11 @@ def call_real(name, meta, args):
     if name == "routing_param_disambiguated_field":
         from gapic.schema import wrappers
         return wrappers.RoutingParameter(field=args[0], path_template="").disambiguated_field
+    if name == "metadata_doc":
+        from gapic.schema import metadata
+        from google.protobuf import descriptor_pb2
+        loc = descriptor_pb2.SourceCodeInfo.Location(leading_comments=args[0], trailing_comments=args[1], leading_detached_comments=args[2])
+        return metadata.Metadata(documentation=loc).doc
     f = _resolve(meta["file"], meta["qual"])
     if name == "address_resolve":
         from gapic.schema import metadata
